@@ -1,6 +1,7 @@
 """./check <ID> quick|thorough  — decide one property from /repo's current source (static analysis only)."""
 import json
 import os
+import zlib
 import sys
 import time
 
@@ -77,7 +78,7 @@ def main(argv):
     for r in known_hits:
         print('KNOWN-FINDING: property=%s %s [%s]' % (pid, known[(pid, r.key)], r.key))
     for r in new_viol:
-        path = os.path.join(vdir, '%s-%s-%s.json' % (pid, r.rule, abs(hash(r.key)) % 100000))
+        path = os.path.join(vdir, '%s-%s-%s.json' % (pid, r.rule, zlib.crc32(r.key.encode()) % 100000))
         with open(path, 'w') as f:
             json.dump({'property': pid, **r.to_json(), 'how_to_replay': './check %s %s' % (pid, tier)}, f, indent=1)
         print('  ' + fmt_result(r))
